@@ -100,7 +100,7 @@ CallChoices ==
         ELSE {})
   \cup { <<"Free", [h |-> h]>> : h \in Handles \cup {0} }
   \cup { <<"Crypt", [h |-> h, pw |-> Pw, len |-> 2]>> : h \in Handles }
-  \cup (IF Rich THEN { <<"Keygen", [h |-> h, coin |-> 2047, size |-> 32]>> : h \in Handles }
+  \cup (IF Rich THEN { <<"Keygen", [h |-> h, coin |-> 2047, size |-> 32, size_mid |-> 0, size_hi |-> 0]>> : h \in Handles }
                 \cup { <<"Store", [h |-> h]>> : h \in Handles }
                 \cup { <<"Feature", [h |-> h, lo |-> 7, hi |-> 0]>> : h \in Handles }
         ELSE {})
@@ -137,11 +137,11 @@ DepChoices ==
   \cup (IF call.op = "Keygen" /\ Count("Kdf") = 0
         THEN { [e |-> "Kdf", impl |-> Implof("kdf"), pwlen |-> 32, pw |-> KeygenPw(SeedOf(call.a.h)), saltlen |-> 32,
                 salt |-> KeygenSalt(SeedOf(call.a.h), call.a.coin), iter_lo |-> 10000, iter_hi |-> 0,
-                keylen |-> call.a.size, callerkey |-> TRUE, out |-> m] : m \in MaskPool }
+                keylen |-> call.a.size, keylen_mid |-> 0, keylen_hi |-> 0, callerkey |-> TRUE, out |-> m] : m \in MaskPool }
         ELSE {})
   \cup (IF call.op = "Crypt" /\ Count("Kdf") = 0
         THEN { [e |-> "Kdf", impl |-> Implof("kdf"), pwlen |-> Len(call.a.pw), pw |-> call.a.pw, saltlen |-> 16,
-                salt |-> MaskSalt, iter_lo |-> 10000, iter_hi |-> 0, keylen |-> 32, callerkey |-> FALSE, out |-> m] : m \in MaskPool }
+                salt |-> MaskSalt, iter_lo |-> 10000, iter_hi |-> 0, keylen |-> 32, keylen_mid |-> 0, keylen_hi |-> 0, callerkey |-> FALSE, out |-> m] : m \in MaskPool }
         ELSE {})
 
 MCDep ==
